@@ -1,14 +1,18 @@
-//! harness family c18: the three language servers under arbitrary notification histories and
-//! analysis-thread schedules.
+//! harness family c18: the three language servers under arbitrary notification histories, settings
+//! (answers to `workspace/configuration`) and analysis-thread schedules.
 //!
 //! The server binaries are built from the working tree (`A2KIT_REPO`, default `/repo`) with
 //! `--cfg a2kit_verif` into `./c18-target` and driven over stdio with LSP.  If the verification
 //! hooks are compiled in (the server writes `A2KIT_VERIF_LOG`: event lines on its stderr), every case additionally yields an
-//! event trace that is replayed through the Lean model (`c18 trace …`); otherwise the family runs in
+//! event trace that is replayed through the Lean model (`c18 trace …`, `Srv.stepC`); otherwise the family runs in
 //! black-box mode (oracles on the LSP traffic only) and says so in the `D` counters.
 //!
-//! Case streams: `hist` (generated histories, idx 0..), `fixed` (hand-made schedules, idx 9000..),
-//! `odd` (robustness: broken/odd documents, idx 20000..).
+//! References for "what analysing the final text alone produces": a NEW analyzer in this process with the
+//! settings the client sent last (`inproc_diags`) and a fresh server process given the same settings.
+//!
+//! Case streams: `hist` (generated histories, idx 0..), `fixed` (hand-made schedules, idx 9000 + 20·server ..),
+//! `workspace` (Merlin documents in an on-disk workspace folder, idx 9100..), `odd` (robustness: broken/odd
+//! documents, idx 20000..).
 use crate::util::*;
 use a2kit::lang::server::Analysis;
 use std::collections::{BTreeMap, HashMap, HashSet};
@@ -28,7 +32,20 @@ impl Lang {
     fn idx(self) -> usize { match self { Lang::Applesoft => 0, Lang::Integer => 1, Lang::Merlin => 2 } }
 }
 
-fn uri_of(lang: Lang, case: usize, d: usize) -> String { format!("file:///c18/k{}/doc{}.{}", case, d, lang.ext()) }
+/// Cases 9100..9199 (Merlin) live in a workspace folder on disk: `<cwd>/c18-ws/k<idx>/DOC<d>.S`; all other
+/// cases use uris that exist nowhere, so the server's workspace is empty.
+fn ws_dir(case: usize) -> Option<std::path::PathBuf> {
+    if (9100..9200).contains(&case) { std::env::current_dir().ok().map(|c| c.join("c18-ws").join(format!("k{}", case))) } else { None }
+}
+fn ws_folder_uri(case: usize) -> Option<String> {
+    ws_dir(case).and_then(|d| lsp_types::Url::from_directory_path(d).ok()).map(|u| u.to_string())
+}
+fn uri_of(lang: Lang, case: usize, d: usize) -> String {
+    match ws_dir(case) {
+        Some(dir) => lsp_types::Url::from_file_path(dir.join(format!("DOC{}.S", d))).map(|u| u.to_string()).unwrap_or_else(|_| format!("file:///c18/k{}/doc{}.S", case, d)),
+        None => format!("file:///c18/k{}/doc{}.{}", case, d, lang.ext()),
+    }
+}
 
 // ------------------------------------------------------------------------------------------------
 // LSP client
@@ -124,9 +141,12 @@ impl Client {
     fn has_response(&self, id: i64, timeout_ms: u64) -> bool {
         self.wait_for(|ms| ms.iter().any(|(_, m)| m["id"].as_i64() == Some(id) && m["method"].is_null()), timeout_ms)
     }
-    fn initialize(&mut self) -> bool {
-        let id = self.request("initialize", json::object! { "processId": json::Null, "rootUri": json::Null,
-            "capabilities": { "workspace": { "configuration": true } } });
+    fn initialize(&mut self) -> bool { self.initialize_ws(None) }
+    fn initialize_ws(&mut self, folder: Option<String>) -> bool {
+        let mut params = json::object! { "processId": json::Null, "rootUri": json::Null,
+            "capabilities": { "workspace": { "configuration": true } } };
+        if let Some(f) = folder { params["workspaceFolders"] = json::array![ json::object! { "uri": f.as_str(), "name": "ws" } ]; }
+        let id = self.request("initialize", params);
         if !self.has_response(id, T_INIT) { return false; }
         self.notify("initialized", json::object! {})
     }
@@ -263,7 +283,60 @@ const ME_LINES: [&str; 26] = ["START    LDA   #$00", "         STA   $C000", "LO
 const FN_NAMES: [&str; 4] = ["CUBE", "CUTE", "CUP", "CUB2"];
 const VAR_NAMES: [&str; 4] = ["BLUE", "BLIP", "BLUB", "BL2"];
 
-fn valid_text(lang: Lang, rng: &mut Rng) -> String {
+/// Settings the client may send in answer to `workspace/configuration`; id 0 is always `{}` (the
+/// built-in defaults).  Every entry changes the diagnostics of some generated text (severity of an
+/// optional diagnostic, a diagnostic switched off or on, Merlin version = processor / syntax set).
+fn settings_pool(lang: Lang) -> Vec<&'static str> {
+    match lang {
+        Lang::Applesoft => vec![
+            r#"{"flag":{"undefinedVariables":"error"}}"#,
+            r#"{"flag":{"undefinedVariables":"ignore","undeclaredArrays":"error"}}"#,
+            r#"{"flag":{"caseSensitive":"warn","collisions":"ignore"}}"#,
+            r#"{"flag":{"badReferences":"warn","extendedCall":"ignore","terminalString":"error"}}"#,
+            r#"{"flag":{"caseSensitive":"error","terminalString":"ignore","collisions":"error","undeclaredArrays":"ignore","undefinedVariables":"info","badReferences":"info","extendedCall":"warn"}}"#,
+            IGNORE_ALL, ERROR_ALL],
+        Lang::Integer => vec![
+            r#"{"flag":{"undefinedVariables":"error"}}"#,
+            r#"{"flag":{"undeclaredArrays":"ignore","badReferences":"warn"}}"#,
+            r#"{"flag":{"caseSensitive":"error","immediateMode":"warn"}}"#,
+            r#"{"flag":{"undefinedVariables":"ignore","undeclaredArrays":"error","immediateMode":"ignore"},"warn":{"length":20}}"#,
+            IGNORE_ALL, ERROR_ALL],
+        Lang::Merlin => vec![
+            r#"{"version":"Merlin 16"}"#,
+            r#"{"version":"Merlin 16+"}"#,
+            r#"{"version":"Merlin 32"}"#,
+            r#"{"flag":{"caseSensitive":"error"}}"#,
+            r#"{"flag":{"unclosedFolds":"ignore"}}"#,
+            r#"{"version":"Merlin 16+","flag":{"caseSensitive":"warn","unclosedFolds":"warn"},"linker":{"detect":0.0}}"#,
+            r#"{"version":"Merlin 32","flag":{"caseSensitive":"ignore","unclosedFolds":"info"},"linker":{"detect":1.0}}"#],
+    }
+}
+const ME_LIVE_OFF: &str = r#"{"diagnostics":{"live":false}}"#;
+
+fn cfg_is_live(json_text: &str) -> bool {
+    match json::parse(json_text) { Ok(v) => v["diagnostics"]["live"].as_bool().unwrap_or(true), Err(_) => true }
+}
+
+/// statements whose diagnostics depend on the settings
+const AS_SENS: [&str; 9] = ["PRINT UNDEF1", "ARR(3) = 1", "print \"lower\"", "GOTO 31999", "PRINT \"UNTERM", "CALL 768,A,B", "GREEN = 1: GREAT = 2",
+    "A$ = \"X\": Print A$", "GOSUB 31998: Q(1,2) = Q2"];
+const IB_SENS: [&str; 8] = ["PRINT UNDEF1", "ARR(3) = 1", "print \"lower\"", "GOTO 31999", "PRINT Q$", "Q(5) = Q2", "GOSUB 31998",
+    "REM A LONG LINE TO TRIGGER THE LENGTH WARNING: PRINT \"0123456789012345678901234567890123456789\""];
+/// Merlin lines whose meaning depends on the processor / assembler version / flags
+const ME_SENS: [&str; 14] = ["         PHX", "         PLY", "         XBA", "         PHB", "         LDA   #$1234", "PHX      MAC", "         BRA   START", "         STZ   $C000",
+    "         lda   #$01", "         DO    1", "         MVN   $01,$02", "         INC", "         JML   $010000", "         TSB   $10"];
+/// Merlin lines that change what the analyzer carries (processor selection, MX, macro and variable
+/// tables, include stack): allowed in *earlier* versions and other documents, never in a final text
+const ME_HIST: [&str; 16] = ["         XC", "         XC\n         XC", "         XC    OFF", "         MX    %00", "         MX    %11", "         MX    %10",
+    "PHX      MAC\n         TXA\n         PHA\n         <<<", "PLY      MAC\n         PLA\n         TAY\n         <<<", "INCD     MAC\n         INC   ]1\n         <<<",
+    "         PUT   OTHER", "         USE   MACS", "         USE   4/MACS.S", "]CNT     =     7", "         DUM   $300\nBUF      DS    4",
+    "         LUP   2\n         XC", "* a trailing comment block\n* that documents the next label"];
+
+fn valid_text(lang: Lang, rng: &mut Rng) -> String { valid_text_h(lang, rng, false) }
+
+/// `hist`: the text may contain lines that change what a Merlin analyzer carries (an *earlier* version
+/// or another document; final texts are generated with `hist = false`)
+fn valid_text_h(lang: Lang, rng: &mut Rng, hist: bool) -> String {
     let n = rng.range(1, 14);
     let mut s = String::new();
     match lang {
@@ -272,14 +345,20 @@ fn valid_text(lang: Lang, rng: &mut Rng) -> String {
             let f = *rng.pick(&FN_NAMES);
             let v = *rng.pick(&VAR_NAMES);
             for _ in 0..n {
-                let stmt = if lang == Lang::Applesoft { *rng.pick(&AS_STMTS) } else { *rng.pick(&IB_STMTS) };
+                let stmt = if rng.chance(30) { if lang == Lang::Applesoft { *rng.pick(&AS_SENS) } else { *rng.pick(&IB_SENS) } }
+                    else if lang == Lang::Applesoft { *rng.pick(&AS_STMTS) } else { *rng.pick(&IB_STMTS) };
                 let stmt = stmt.replace("FN F(", &format!("FN {}(", f)).replace("LONGV", v);
                 s.push_str(&format!("{} {}\n", ln, stmt));
                 ln += 10 * rng.range(1, 3);
             }
+            // an earlier version may end inside a function definition (Applesoft keeps a DEF FN depth)
+            if hist && lang == Lang::Applesoft && rng.chance(40) { s.push_str(&format!("{} DEF FN {}(UNDEF1) = UNDEF1 + W9\n", ln, f)); }
         }
         Lang::Merlin => {
-            for _ in 0..n { s.push_str(*rng.pick(&ME_LINES)); s.push('\n'); }
+            for _ in 0..n {
+                let l = if hist && rng.chance(35) { *rng.pick(&ME_HIST) } else if rng.chance(30) { *rng.pick(&ME_SENS) } else { *rng.pick(&ME_LINES) };
+                s.push_str(l); s.push('\n');
+            }
         }
     }
     s
@@ -371,8 +450,8 @@ enum Act {
     Change { d: usize, ver: i64, t: usize },
     Close { d: usize },
     Req { kind: usize, d: usize, line: usize, ch: usize },
-    /// `workspace/didChangeConfiguration` → server pulls → we answer
-    Config { live: bool },
+    /// `workspace/didChangeConfiguration` → server pulls → we answer with `case.cfgs[cfg]`
+    Config { cfg: usize },
 }
 
 #[derive(Clone, Debug)]
@@ -381,8 +460,11 @@ struct Case {
     idx: usize,
     steps: Vec<(u64, Act)>,
     texts: Vec<String>,
+    /// settings objects (JSON text) used by this case; `cfgs[0]` is `{}` = the defaults
+    cfgs: Vec<String>,
     sched: Vec<(String, i64, u64)>,
-    answer_initial_cfg: bool,
+    /// answer to the configuration request the server sends right after `initialized`
+    initial_cfg: Option<usize>,
     poison: bool,
     burst: bool,
     /// requests must be answered within this many ms although an analysis holds the mutex much longer
@@ -394,19 +476,30 @@ impl Case {
         self.sched.iter().map(|(t, v, ms)| format!("{}:{}={}", t, v, ms)).collect::<Vec<_>>().join(",")
     }
     fn describe(&self) -> String {
-        let mut s = format!("idx={} srv={} sched={} cfg0={} steps=", self.idx, self.lang.name(), self.sched_string(), self.answer_initial_cfg as u8);
+        let mut s = format!("idx={} srv={} sched={} cfg0={} steps=", self.idx, self.lang.name(), self.sched_string(),
+            match self.initial_cfg { Some(c) => c.to_string(), None => "-".to_string() });
         for (gap, a) in &self.steps {
             s.push_str(&match a {
                 Act::Open { d, ver, t } => format!("+{}ms O{}v{}t{} ", gap, d, ver, t),
                 Act::Change { d, ver, t } => format!("+{}ms C{}v{}t{} ", gap, d, ver, t),
                 Act::Close { d } => format!("+{}ms X{} ", gap, d),
                 Act::Req { kind, d, .. } => format!("+{}ms R{}d{} ", gap, kind, d),
-                Act::Config { live } => format!("+{}ms G{} ", gap, *live as u8),
+                Act::Config { cfg } => format!("+{}ms G{} ", gap, cfg),
             });
         }
+        s.push_str(&format!("cfgs={}", self.cfgs.iter().enumerate().skip(1).map(|(i, c)| format!("{}:{}", i, c)).collect::<Vec<_>>().join(";")));
         s
     }
     fn launches(&self) -> usize { self.steps.iter().filter(|(_, a)| matches!(a, Act::Open { .. } | Act::Change { .. })).count() }
+    fn live_off(&self) -> bool {
+        self.steps.iter().any(|(_, a)| matches!(a, Act::Config { cfg } if !cfg_is_live(&self.cfgs[*cfg])))
+            || matches!(self.initial_cfg, Some(c) if !cfg_is_live(&self.cfgs[c]))
+    }
+}
+
+fn tag_text(lang: Lang, t: usize, txt: String) -> String {
+    // keep texts of one case pairwise distinct so that a text id identifies a text
+    format!("{}{}", txt, match lang { Lang::Merlin => format!("* t{}\n", t), _ => format!("{} REM T{}\n", 60000 + t, t) })
 }
 
 fn gen_case(lang: Lang, idx: usize, rng: &mut Rng) -> Case {
@@ -414,20 +507,25 @@ fn gen_case(lang: Lang, idx: usize, rng: &mut Rng) -> Case {
     let nedits = rng.range(2, 9);
     let burst = rng.chance(35);
     let poison = rng.chance(8);
-    let mut texts: Vec<String> = Vec::new();
+    // the settings of this case
+    let pool = settings_pool(lang);
+    let mut cfgs = vec!["{}".to_string()];
+    for _ in 0..rng.range(1, 3) { cfgs.push(rng.pick(&pool).to_string()); }
+    if lang == Lang::Merlin && rng.chance(12) { cfgs.push(ME_LIVE_OFF.to_string()); }
     let mut steps: Vec<(u64, Act)> = Vec::new();
     let mut open = vec![false; ndocs];
     let mut next_ver = vec![0i64; ndocs];
     let mut all_vers: Vec<i64> = Vec::new();
-    let mut live = true;
+    let mut ntexts = 0usize;
+    let mut last_text_of_doc: Vec<Option<usize>> = vec![None; ndocs];
+    let mut held: Vec<(i64, u64)> = Vec::new();
     let gaps: [u64; 8] = [0, 0, 5, 20, 60, 120, 200, 300];
     for e in 0..nedits + ndocs {
         let d = if e < ndocs { e } else { rng.below(ndocs) };
         let gap = if burst { *rng.pick(&[0u64, 0, 0, 3]) } else { *rng.pick(&gaps) };
-        let t = texts.len();
-        let txt = if rng.chance(30) { odd_text(lang, 3 + rng.below(9), rng).0 } else { valid_text(lang, rng) };
-        // keep texts of one case pairwise distinct so that a text id identifies a text
-        texts.push(format!("{}{}", txt, match lang { Lang::Merlin => format!("* t{}\n", t), _ => format!("{} REM T{}\n", 60000 + t, t) }));
+        let t = ntexts;
+        ntexts += 1;
+        last_text_of_doc[d] = Some(t);
         next_ver[d] += 1;
         let ver = (d as i64 + 1) * 1000 + next_ver[d];
         all_vers.push(ver);
@@ -439,24 +537,38 @@ fn gen_case(lang: Lang, idx: usize, rng: &mut Rng) -> Case {
         }
         if rng.chance(25) { steps.push((*rng.pick(&gaps), Act::Req { kind: rng.below(5), d, line: rng.below(4), ch: rng.below(12) })); }
         if rng.chance(7) && e + 1 < nedits + ndocs { steps.push((*rng.pick(&gaps), Act::Close { d })); open[d] = false; }
-        if rng.chance(10) {
-            let l = if lang == Lang::Merlin && rng.chance(30) { !live } else { live };
-            live = l;
-            steps.push((*rng.pick(&gaps), Act::Config { live: l }));
+        if rng.chance(22) {
+            // the answer arrives before / while / after the analysis of the edit just sent
+            let cfg = rng.below(cfgs.len());
+            match rng.below(3) {
+                0 => steps.push((*rng.pick(&gaps), Act::Config { cfg })),
+                1 => { held.push((ver, *rng.pick(&[200u64, 350, 500]))); steps.push((*rng.pick(&[0u64, 10, 40]), Act::Config { cfg })); }
+                _ => steps.push((*rng.pick(&[150u64, 300]), Act::Config { cfg })),
+            }
         }
+    }
+    let finals: Vec<usize> = last_text_of_doc.iter().flatten().cloned().collect();
+    let mut texts: Vec<String> = Vec::new();
+    for t in 0..ntexts {
+        let is_final = finals.contains(&t);
+        let txt = if rng.chance(25) { let k = 3 + rng.below(9); odd_text(lang, k, rng).0 } else { let h = !is_final && rng.chance(70); valid_text_h(lang, rng, h) };
+        texts.push(tag_text(lang, t, txt));
     }
     // delay table: force out-of-order acquisition/completion
     let mut sched = Vec::new();
     for v in &all_vers {
+        if let Some((_, ms)) = held.iter().find(|(hv, _)| hv == v) { sched.push(("hold".to_string(), *v, *ms)); continue; }
         if rng.chance(35) { sched.push(("lock".to_string(), *v, *rng.pick(&[30u64, 80, 150, 250]))); }
         if rng.chance(20) { sched.push(("hold".to_string(), *v, *rng.pick(&[50u64, 120, 250]))); }
         if rng.chance(10) { sched.push(("finish".to_string(), *v, *rng.pick(&[40u64, 100]))); }
     }
     if poison && all_vers.len() >= 2 {
         let v = all_vers[rng.below(all_vers.len() - 1)];
+        sched.retain(|(_, sv, _)| *sv != v);
         sched.push(("panic".to_string(), v, 1));
     }
-    Case { lang, idx, steps, texts, sched, answer_initial_cfg: rng.chance(50), poison, burst, max_latency: None }
+    let initial_cfg = if rng.chance(60) { Some(rng.below(cfgs.len())) } else { None };
+    Case { lang, idx, steps, texts, cfgs, sched, initial_cfg, poison, burst, max_latency: None }
 }
 
 /// how long the first analysis of fixed schedule (b) keeps the mutex
@@ -475,9 +587,40 @@ fn leak_texts(lang: Lang) -> (String, String) {
     }
 }
 
+/// a text that reacts to every setting of its language (and, for Merlin, to the processor selection)
+fn sens_text(lang: Lang, salt: usize) -> String {
+    let mut s = String::new();
+    match lang {
+        Lang::Applesoft => for (i, l) in AS_SENS.iter().enumerate() { s.push_str(&format!("{} {}\n", 10 * (i + 1), l)); },
+        Lang::Integer => for (i, l) in IB_SENS.iter().enumerate() { s.push_str(&format!("{} {}\n", 10 * (i + 1), l)); },
+        Lang::Merlin => {
+            s.push_str("PHX      MAC\n         TXA\n         PHA\n         <<<\nSTART    LDX   #$01\n");
+            for l in ME_SENS.iter() { if !l.contains("MAC") { s.push_str(l); s.push('\n'); } }
+            s.push_str("         FIN\n         DO    0\n         RTS\n");
+        }
+    }
+    match lang { Lang::Merlin => s.push_str(&format!("* s{}\n", salt)), _ => s.push_str(&format!("{} REM S{}\n", 59000 + salt, salt)) }
+    s
+}
+
+/// an *earlier* text that leaves as much as possible in the analyzer for the next analysis
+fn hist_text(lang: Lang, k: usize) -> String {
+    match lang {
+        Lang::Merlin => {
+            let pre = ["         XC\n", "         XC\n         XC\n", "         XC    OFF\n", "         XC\n         XC\n         MX    %00\n",
+                "         MX    %10\nINCD     MAC\n         INC   ]1\n         <<<\n", "         USE   MACS\n         PUT   OTHER\n]CNT     =     7\n"];
+            format!("{}PHX      MAC\n         TXA\n         PHA\n         <<<\nSTART    LDX   #$00\n         PHX\n         XBA\n         LDA   #$1234\n         DO    1\n         LUP   2\nLAST     MAC\n* doc of nothing\n", pre[k % pre.len()])
+        }
+        Lang::Applesoft => format!("10 DEF FN CUBE(X) = X*X*X\n20 BLUE = 2: BLIP = 3: print \"x\n30 POKE 103,1: POKE 104,8\n40 DIM ARR(3),Q(2,2): UNDEF1 = {}\n50 DEF FN CUP(UNDEF1) = UNDEF1 + Q2\n", k),
+        Lang::Integer => format!("10 DIM ARR(5),Q(9),Q$(10)\n20 UNDEF1 = {}: Q2 = 1\n30 DIM NAME$(10\n", k),
+    }
+}
+
 /// hand-made schedules that every run must contain
 fn fixed_cases(lang: Lang, base: usize, rng: &mut Rng) -> Vec<Case> {
-    let mk = |t: usize, rng: &mut Rng| format!("{}{}", valid_text(lang, rng), match lang { Lang::Merlin => format!("* t{}\n", t), _ => format!("{} REM T{}\n", 60000 + t, t) });
+    let mk = |t: usize, rng: &mut Rng| tag_text(lang, t, valid_text(lang, rng));
+    let pool = settings_pool(lang);
+    let no_cfg = || vec!["{}".to_string()];
     let mut out = Vec::new();
     // (a) burst of 6 edits, completion order reversed by the delay table
     let texts: Vec<String> = (0..6).map(|t| mk(t, rng)).collect();
@@ -485,22 +628,22 @@ fn fixed_cases(lang: Lang, base: usize, rng: &mut Rng) -> Vec<Case> {
     for i in 1..6 { steps.push((0, Act::Change { d: 0, ver: 1001 + i as i64, t: i })); }
     steps.push((10, Act::Req { kind: 0, d: 0, line: 0, ch: 4 }));
     let sched = (0..6).map(|i| ("lock".to_string(), 1001 + i as i64, 60 * (5 - i as u64))).collect();
-    out.push(Case { lang, idx: base, steps, texts, sched, answer_initial_cfg: false, poison: false, burst: true, max_latency: None });
+    out.push(Case { lang, idx: base, steps, texts, cfgs: no_cfg(), sched, initial_cfg: None, poison: false, burst: true, max_latency: None });
     // (b) first analysis holds the mutex for several seconds while two documents are edited and requests arrive
     let texts: Vec<String> = (0..4).map(|t| mk(t, rng)).collect();
     let steps = vec![(0, Act::Open { d: 0, ver: 1001, t: 0 }), (30, Act::Open { d: 1, ver: 2001, t: 1 }), (10, Act::Req { kind: 0, d: 0, line: 0, ch: 4 }),
         (0, Act::Change { d: 0, ver: 1002, t: 2 }), (20, Act::Req { kind: 1, d: 1, line: 0, ch: 2 }), (0, Act::Change { d: 1, ver: 2002, t: 3 }), (50, Act::Req { kind: 2, d: 0, line: 0, ch: 0 })];
-    out.push(Case { lang, idx: base + 1, steps, texts, sched: vec![("hold".to_string(), 1001, HOLD_MS)], answer_initial_cfg: true, poison: false, burst: false, max_latency: Some(HOLD_MS) });
+    out.push(Case { lang, idx: base + 1, steps, texts, cfgs: no_cfg(), sched: vec![("hold".to_string(), 1001, HOLD_MS)], initial_cfg: Some(0), poison: false, burst: false, max_latency: Some(HOLD_MS) });
     // (c) configuration answered while an analysis holds the mutex; private-analyzer relaunch
     let texts: Vec<String> = (0..3).map(|t| mk(t, rng)).collect();
-    let steps = vec![(0, Act::Open { d: 0, ver: 1001, t: 0 }), (0, Act::Open { d: 1, ver: 2001, t: 1 }), (20, Act::Config { live: true }), (0, Act::Change { d: 0, ver: 1002, t: 2 }),
+    let steps = vec![(0, Act::Open { d: 0, ver: 1001, t: 0 }), (0, Act::Open { d: 1, ver: 2001, t: 1 }), (20, Act::Config { cfg: 0 }), (0, Act::Change { d: 0, ver: 1002, t: 2 }),
         (0, Act::Req { kind: 0, d: 0, line: 0, ch: 3 })];
-    out.push(Case { lang, idx: base + 2, steps, texts, sched: vec![("hold".to_string(), 1001, 200), ("lock".to_string(), 2001, 100)], answer_initial_cfg: true, poison: false, burst: false, max_latency: None });
+    out.push(Case { lang, idx: base + 2, steps, texts, cfgs: no_cfg(), sched: vec![("hold".to_string(), 1001, 200), ("lock".to_string(), 2001, 100)], initial_cfg: Some(0), poison: false, burst: false, max_latency: None });
     // (d) injected thread death: poisoning must silence the shared analyzer exactly as the model says
     let texts: Vec<String> = (0..4).map(|t| mk(t, rng)).collect();
     let steps = vec![(0, Act::Open { d: 0, ver: 1001, t: 0 }), (150, Act::Change { d: 0, ver: 1002, t: 1 }), (0, Act::Change { d: 0, ver: 1003, t: 2 }),
         (100, Act::Req { kind: 0, d: 0, line: 0, ch: 3 }), (50, Act::Change { d: 0, ver: 1004, t: 3 })];
-    out.push(Case { lang, idx: base + 3, steps, texts, sched: vec![("panic".to_string(), 1002, 1)], answer_initial_cfg: false, poison: true, burst: false, max_latency: None });
+    out.push(Case { lang, idx: base + 3, steps, texts, cfgs: no_cfg(), sched: vec![("panic".to_string(), 1002, 1)], initial_cfg: None, poison: true, burst: false, max_latency: None });
     // (e) burst of changes on a LARGE document, no delay table: the analysis takes longer than the gaps,
     //     so jobs pile up behind the mutex by themselves (works without hooks too)
     let big = |t: usize, rng: &mut Rng| {
@@ -515,16 +658,76 @@ fn fixed_cases(lang: Lang, base: usize, rng: &mut Rng) -> Vec<Case> {
     let texts: Vec<String> = (0..5).map(|t| big(t, rng)).collect();
     let mut steps = vec![(0, Act::Open { d: 0, ver: 1001, t: 0 })];
     for i in 1..5 { steps.push((0, Act::Change { d: 0, ver: 1001 + i as i64, t: i })); }
-    out.push(Case { lang, idx: base + 4, steps, texts, sched: vec![], answer_initial_cfg: false, poison: false, burst: true, max_latency: None });
+    out.push(Case { lang, idx: base + 4, steps, texts, cfgs: no_cfg(), sched: vec![], initial_cfg: None, poison: false, burst: true, max_latency: None });
     // (f) what one analysis leaves in the shared analyzer must not reach the next: B after A on the same
     //     document and on another one, in launch order ...
     let (a, b) = leak_texts(lang);
     let texts = vec![a.clone(), a.clone() + &match lang { Lang::Merlin => "* other\n".to_string(), _ => "60001 REM OTHER\n".to_string() }, b.clone()];
     let steps = vec![(0, Act::Open { d: 0, ver: 1001, t: 0 }), (0, Act::Open { d: 1, ver: 2001, t: 1 }), (40, Act::Open { d: 2, ver: 3001, t: 2 }), (40, Act::Change { d: 0, ver: 1002, t: 2 })];
-    out.push(Case { lang, idx: base + 5, steps: steps.clone(), texts: texts.clone(), sched: vec![], answer_initial_cfg: false, poison: false, burst: false, max_latency: None });
+    out.push(Case { lang, idx: base + 5, steps: steps.clone(), texts: texts.clone(), cfgs: no_cfg(), sched: vec![], initial_cfg: None, poison: false, burst: false, max_latency: None });
     // (g) ... and with the analyses forced out of launch order (B is analysed first, then A)
-    out.push(Case { lang, idx: base + 6, steps: vec![(0, Act::Open { d: 0, ver: 1001, t: 0 }), (0, Act::Open { d: 1, ver: 2001, t: 2 })], texts,
-        sched: vec![("lock".to_string(), 1001, 300)], answer_initial_cfg: false, poison: false, burst: false, max_latency: None });
+    out.push(Case { lang, idx: base + 6, steps: vec![(0, Act::Open { d: 0, ver: 1001, t: 0 }), (0, Act::Open { d: 1, ver: 2001, t: 2 })], texts, cfgs: no_cfg(),
+        sched: vec![("lock".to_string(), 1001, 300)], initial_cfg: None, poison: false, burst: false, max_latency: None });
+    // ---- settings ----
+    // (h) the client's settings arrive WHILE an analysis holds the shared analyzer (the handler has to
+    //     wait for it); later edits must be analysed with them.  One case per settings object of the pool,
+    //     rotating with the seed, the first always being the first of the pool.
+    let k1 = 0usize;
+    let k2 = 1 + rng.below(pool.len() - 1);
+    for (n, k) in [k1, k2].iter().enumerate() {
+        let texts = vec![tag_text(lang, 0, hist_text(lang, n)), tag_text(lang, 1, sens_text(lang, 1)), tag_text(lang, 2, sens_text(lang, 2)), tag_text(lang, 3, sens_text(lang, 3))];
+        let steps = vec![(0, Act::Open { d: 0, ver: 1001, t: 0 }), (80, Act::Config { cfg: 1 }), (0, Act::Open { d: 1, ver: 2001, t: 1 }), (0, Act::Req { kind: 2, d: 0, line: 0, ch: 0 }),
+            (700, Act::Change { d: 0, ver: 1002, t: 2 }), (0, Act::Change { d: 1, ver: 2002, t: 3 })];
+        out.push(Case { lang, idx: base + 7 + n, steps, texts, cfgs: vec!["{}".to_string(), pool[*k].to_string()], sched: vec![("hold".to_string(), 1001, 500)],
+            initial_cfg: if n == 0 { None } else { Some(0) }, poison: false, burst: false, max_latency: None });
+    }
+    // (i) two answers while the analyzer is held: the second one must win, for shared and private jobs alike
+    let ka = rng.below(pool.len());
+    let kb = (ka + 1 + rng.below(pool.len() - 1)) % pool.len();
+    let texts = vec![tag_text(lang, 0, sens_text(lang, 0)), tag_text(lang, 1, hist_text(lang, 3)), tag_text(lang, 2, sens_text(lang, 2)), tag_text(lang, 3, sens_text(lang, 3))];
+    let steps = vec![(0, Act::Open { d: 0, ver: 1001, t: 0 }), (0, Act::Open { d: 1, ver: 2001, t: 1 }), (60, Act::Config { cfg: 1 }), (30, Act::Config { cfg: 2 }),
+        (0, Act::Change { d: 1, ver: 2002, t: 2 }), (500, Act::Change { d: 0, ver: 1002, t: 3 })];
+    out.push(Case { lang, idx: base + 9, steps, texts, cfgs: vec!["{}".to_string(), pool[ka].to_string(), pool[kb].to_string()],
+        sched: vec![("hold".to_string(), 1001, 350), ("hold".to_string(), 2001, 200)], initial_cfg: None, poison: false, burst: false, max_latency: None });
+    // (j) settings before any analysis, a burst afterwards; (k) settings when everything is quiet, then an edit
+    let kj = rng.below(pool.len());
+    let texts = vec![tag_text(lang, 0, hist_text(lang, 1)), tag_text(lang, 1, hist_text(lang, 4)), tag_text(lang, 2, sens_text(lang, 2)), tag_text(lang, 3, sens_text(lang, 3))];
+    let steps = vec![(0, Act::Open { d: 0, ver: 1001, t: 0 }), (0, Act::Open { d: 1, ver: 2001, t: 1 }), (0, Act::Change { d: 0, ver: 1002, t: 2 }), (0, Act::Change { d: 1, ver: 2002, t: 3 })];
+    out.push(Case { lang, idx: base + 10, steps, texts: texts.clone(), cfgs: vec!["{}".to_string(), pool[kj].to_string()], sched: vec![("lock".to_string(), 1001, 120)],
+        initial_cfg: Some(1), poison: false, burst: true, max_latency: None });
+    let kk = rng.below(pool.len());
+    let steps = vec![(0, Act::Open { d: 0, ver: 1001, t: 0 }), (0, Act::Open { d: 1, ver: 2001, t: 1 }), (400, Act::Config { cfg: 1 }), (250, Act::Change { d: 0, ver: 1002, t: 2 }),
+        (0, Act::Close { d: 1 }), (30, Act::Open { d: 1, ver: 2002, t: 3 })];
+    out.push(Case { lang, idx: base + 11, steps, texts, cfgs: vec!["{}".to_string(), pool[kk].to_string()], sched: vec![], initial_cfg: None, poison: false, burst: false, max_latency: None });
+    // ---- history ----
+    // (l) every kind of earlier text (other versions of the document, another open document), analysed in and
+    //     out of launch order, then the final texts; under the defaults and under one settings object
+    for n in 0..2usize {
+        let mut texts: Vec<String> = (0..6).map(|k| tag_text(lang, k, hist_text(lang, k))).collect();
+        texts.push(tag_text(lang, 6, sens_text(lang, 6)));
+        texts.push(tag_text(lang, 7, sens_text(lang, 7)));
+        let steps = vec![(0, Act::Open { d: 0, ver: 1001, t: 0 }), (0, Act::Open { d: 1, ver: 2001, t: 1 }), (20, Act::Change { d: 0, ver: 1002, t: 2 }), (0, Act::Change { d: 1, ver: 2002, t: 3 }),
+            (0, Act::Open { d: 2, ver: 3001, t: 4 }), (30, Act::Change { d: 0, ver: 1003, t: 6 }), (0, Act::Change { d: 2, ver: 3002, t: 5 }), (0, Act::Change { d: 1, ver: 2003, t: 7 })];
+        let sched = if n == 0 { vec![] } else { vec![("lock".to_string(), 1003, 150), ("lock".to_string(), 2002, 200)] };
+        let kl = rng.below(pool.len());
+        out.push(Case { lang, idx: base + 12 + n, steps, texts, cfgs: vec!["{}".to_string(), pool[kl].to_string()], sched, initial_cfg: if n == 0 { None } else { Some(1) },
+            poison: false, burst: false, max_latency: None });
+    }
+    out
+}
+
+/// Merlin documents inside a workspace folder on disk: the server keeps scan data per document (linker
+/// detection, ENT / PUT / USE maps) which an edit must refresh before the edit is analysed
+fn workspace_cases(base: usize) -> Vec<Case> {
+    let lang = Lang::Merlin;
+    let linker = "         LNK   A.L\n         LNK   B.L\n         ASM   C.S\n";
+    let source = "START    LDA   #$00\n         JMP   NOWHERE\n         BNE   START\n";
+    let mut out = Vec::new();
+    for (n, (first, last)) in [(linker, source), (source, linker), (source, source)].iter().enumerate() {
+        let texts = vec![tag_text(lang, 0, first.to_string()), tag_text(lang, 1, first.to_string()), tag_text(lang, 2, last.to_string())];
+        let steps = vec![(0, Act::Open { d: 0, ver: 1001, t: 0 }), (150, Act::Change { d: 0, ver: 1002, t: 1 }), (150, Act::Change { d: 0, ver: 1003, t: 2 }), (0, Act::Req { kind: 2, d: 0, line: 0, ch: 0 })];
+        out.push(Case { lang, idx: base + n, steps, texts, cfgs: vec!["{}".to_string()], sched: vec![], initial_cfg: None, poison: false, burst: false, max_latency: None });
+    }
     out
 }
 
@@ -547,7 +750,12 @@ struct Obs {
     probe_request_answered: bool,
     stderr: String,
     live_at_end: bool,
-    /// per document: (last version sent, text id, diagnostics of a fresh single-document server)
+    /// an event line on stderr was cut up by other output
+    garbled: bool,
+    /// index (into `case.cfgs`) of the settings the client sent last (0 = never sent any)
+    final_cfg: usize,
+    /// per document: (last version sent, text id, diagnostics of a fresh single-document server that was
+    /// given the final settings)
     fresh: BTreeMap<usize, (i64, usize, Option<String>)>,
     /// fixed schedule (b): per request sent while the first analysis held the mutex,
     /// (latency ms, answer came only after that analysis' own publication on the wire)
@@ -566,25 +774,42 @@ fn read_log(stderr: &str) -> Vec<LogLine> {
     out
 }
 
+/// The panic message of a dying thread is written to the raw stderr without the lock `eprintln!` takes, so
+/// it can land in the middle of an event line: a log with a line that mentions the hook prefix but is
+/// not a well-formed event is not evidence (the case is run again).
+fn log_garbled(stderr: &str) -> bool {
+    stderr.lines().any(|l| {
+        if !l.contains("a2kit-verif") || l.contains("a2kit_verif: injected panic") { return false; }
+        let p: Vec<&str> = l.split('\t').collect();
+        !(p.len() == 5 && p[0] == "a2kit-verif" && p[2].parse::<usize>().is_ok() && p[4].parse::<i64>().is_ok())
+    })
+}
+
 fn without_log(stderr: &str) -> String {
     stderr.lines().filter(|l| !l.starts_with("a2kit-verif\t")).collect::<Vec<_>>().join("\n")
 }
 
-fn cfg_value(live: bool) -> json::JsonValue {
-    if live { json::object! {} } else { json::object! { "diagnostics": { "live": false } } }
+fn cfg_value(case: &Case, cfg: usize) -> json::JsonValue {
+    json::parse(&case.cfgs[cfg]).unwrap_or(json::object! {})
 }
 
 fn run_case(bin_dir: &str, case: &Case, tag: &str) -> Obs {
     let _ = tag;
     let mut obs = Obs { started: false, hooks: false, alive_end: false, log: vec![], pubs: vec![], req_sent: vec![], req_answered: vec![],
-        probe_published: false, probe_request_answered: false, stderr: String::new(), live_at_end: true, fresh: BTreeMap::new(), blocked: vec![] };
+        probe_published: false, probe_request_answered: false, stderr: String::new(), live_at_end: true, garbled: false, final_cfg: 0, fresh: BTreeMap::new(), blocked: vec![] };
     let envs = vec![("A2KIT_VERIF_LOG".to_string(), "stderr".to_string()), ("A2KIT_VERIF_SCHED".to_string(), case.sched_string())];
     let mut c = match Client::spawn(&format!("{}/{}", bin_dir, case.lang.exe()), &envs) { Some(c) => c, None => return obs };
-    if !c.initialize() { obs.stderr = without_log(&c.stderr_text()); c.shutdown(); return obs; }
+    if let Some(dir) = ws_dir(case.idx) {
+        // the workspace folder on disk: every document with the first text the client will send for it
+        let _ = std::fs::remove_dir_all(&dir);
+        let _ = std::fs::create_dir_all(&dir);
+        for (_, a) in &case.steps { if let Act::Open { d, t, .. } = a { let p = dir.join(format!("DOC{}.S", d)); if !p.exists() { let _ = std::fs::write(p, &case.texts[*t]); } } }
+    }
+    if !c.initialize_ws(ws_folder_uri(case.idx)) { obs.stderr = without_log(&c.stderr_text()); c.shutdown(); return obs; }
     obs.started = true;
-    if case.answer_initial_cfg { c.answer_config(0, cfg_value(true)); }
-    let mut total_delay: u64 = case.sched.iter().filter(|(t, _, _)| t != "panic").map(|(_, _, ms)| *ms).sum();
     let mut live = true;
+    if let Some(k) = case.initial_cfg { if c.answer_config(0, cfg_value(case, k)) { obs.final_cfg = k; live = cfg_is_live(&case.cfgs[k]); } }
+    let mut total_delay: u64 = case.sched.iter().filter(|(t, _, _)| t != "panic").map(|(_, _, ms)| *ms).sum();
     let mut last_sent: BTreeMap<usize, i64> = BTreeMap::new();
     let mut last_text: BTreeMap<usize, usize> = BTreeMap::new();
     let mut expect_launch = 0usize;
@@ -600,10 +825,10 @@ fn run_case(bin_dir: &str, case: &Case, tag: &str) -> Obs {
                 let id = send_request(&mut c, *kind, &uri_of(case.lang, case.idx, *d), *line, *ch);
                 obs.req_sent.push((id, now, *kind));
             }
-            Act::Config { live: l } => {
+            Act::Config { cfg } => {
                 let from = c.msg_count();
                 c.notify("workspace/didChangeConfiguration", json::object! { "settings": json::Null });
-                if c.answer_config(from, cfg_value(*l)) { live = *l; expect_launch += open_docs.len(); }
+                if c.answer_config(from, cfg_value(case, *cfg)) { live = cfg_is_live(&case.cfgs[*cfg]); obs.final_cfg = *cfg; expect_launch += open_docs.len(); }
                 total_delay += 400; // the handler may wait for the mutex
             }
         }
@@ -667,22 +892,25 @@ fn run_case(bin_dir: &str, case: &Case, tag: &str) -> Obs {
         if case.poison { 1200 } else { T_PUBLISH });
     obs.alive_end = c.alive();
     obs.stderr = without_log(&c.stderr_text());
+    obs.garbled = log_garbled(&c.stderr_text());
     if std::env::var("C18_KEEP_LOGS").is_ok() { let _ = std::fs::write(format!("c18-log-{}-{}.txt", case.lang.name(), case.idx), c.stderr_text()); }
     c.shutdown();
     if !case.poison {
         for (d, ver) in &last_sent {
             let t = last_text[d];
             let u = uri_of(case.lang, case.idx, *d);
-            obs.fresh.insert(*d, (*ver, t, fresh_diags(bin_dir, case.lang, &u, &case.texts[t])));
+            obs.fresh.insert(*d, (*ver, t, fresh_diags(bin_dir, case.lang, &u, &case.texts[t], &case.cfgs[obs.final_cfg], ws_folder_uri(case.idx))));
         }
     }
     obs
 }
 
-/// diagnostics a fresh server instance publishes for this text alone (same uri)
-fn fresh_diags(bin_dir: &str, lang: Lang, uri: &str, text: &str) -> Option<String> {
+/// diagnostics a fresh server instance publishes for this text alone (same uri) after it has been given
+/// the settings `cfg` (the answer is handled before the `didOpen`: the main thread is sequential)
+fn fresh_diags(bin_dir: &str, lang: Lang, uri: &str, text: &str, cfg: &str, ws: Option<String>) -> Option<String> {
     let mut c = Client::spawn(&format!("{}/{}", bin_dir, lang.exe()), &[])?;
-    if !c.initialize() { c.shutdown(); return None; }
+    if !c.initialize_ws(ws) { c.shutdown(); return None; }
+    if cfg != "{}" && !c.answer_config(0, json::parse(cfg).unwrap_or(json::object! {})) { c.shutdown(); return None; }
     did_open(&mut c, uri, 1, text);
     let u = uri.to_string();
     let ok = c.wait_for(|ms| ms.iter().any(|(_, m)| m["method"] == "textDocument/publishDiagnostics" && m["params"]["uri"] == u.as_str()), T_PUBLISH);
@@ -691,24 +919,136 @@ fn fresh_diags(bin_dir: &str, lang: Lang, uri: &str, text: &str) -> Option<Strin
     ans
 }
 
+/// Diagnostics as a JSON value, with the one hash-order dependent text made canonical: the Applesoft
+/// collision message lists the colliding names in `HashSet` iteration order, which differs from analysis
+/// to analysis even for the same text (determinism of LSP messages is C20's business, not C18's).
+fn canon_diags(mut v: serde_json::Value) -> serde_json::Value {
+    if let Some(a) = v.as_array_mut() {
+        for d in a.iter_mut() {
+            let m = d.get("message").and_then(|m| m.as_str()).map(|m| m.to_string());
+            if let Some(m) = m {
+                if let Some(rest) = m.strip_prefix("variable name collision:\n") {
+                    let mut names: Vec<&str> = rest.split(',').collect();
+                    names.sort();
+                    d["message"] = serde_json::Value::String(format!("variable name collision:\n{}", names.join(",")));
+                }
+            }
+        }
+    }
+    v
+}
+fn canon_str(s: &str) -> serde_json::Value { canon_diags(serde_json::from_str::<serde_json::Value>(s).unwrap_or(serde_json::Value::Null)) }
+
+/// `analyze` + `get_diags` of a NEW analyzer that was given the settings `cfg`, on this text alone
+/// (library call in this process, exactly what an analysis thread does with its analyzer):
+/// `Ok(None)` = `analyze` returned `Err`, `Err` = it panicked
+fn inproc_diags(lang: Lang, cfg: &str, uri: &str, text: &str, ws: Option<String>) -> Result<Option<serde_json::Value>, String> {
+    let folders: Vec<lsp_types::Url> = ws.iter().filter_map(|w| lsp_types::Url::parse(w).ok()).collect();
+    let url = match lsp_types::Url::parse(uri) { Ok(u) => a2kit::lang::normalize_client_uri(u), Err(e) => return Err(format!("bad uri {}", e)) };
+    let doc = a2kit::lang::Document { uri: url, version: Some(1), text: text.to_string() };
+    guarded(|| match lang {
+        Lang::Applesoft => { let mut a = a2kit::lang::applesoft::diagnostics::Analyzer::new(); let _ = a.update_config(cfg);
+            match a.analyze(&doc) { Ok(()) => serde_json::to_value(a.get_diags(&doc)).ok().map(canon_diags), Err(_) => None } }
+        Lang::Integer => { let mut a = a2kit::lang::integer::diagnostics::Analyzer::new(); let _ = a.update_config(cfg);
+            match a.analyze(&doc) { Ok(()) => serde_json::to_value(a.get_diags(&doc)).ok().map(canon_diags), Err(_) => None } }
+        Lang::Merlin => { let mut a = a2kit::lang::merlin::diagnostics::Analyzer::new(); let _ = a.update_config(cfg);
+            // what the server does at start-up and in the analysis thread of a `didOpen`
+            if !folders.is_empty() { let _ = a.init_workspace(folders.clone(), Vec::new()); }
+            let _ = a.rescan_workspace_and_update(vec![doc.clone()]);
+            match a.analyze(&doc) { Ok(()) => serde_json::to_value(a.get_diags(&doc)).ok().map(canon_diags), Err(_) => None } }
+    })
+}
+
+/// ONE analyzer with the settings `cfg` analyses the texts of `seq` (uri, text) one after the other, as
+/// the shared analyzer of a server does: the diagnostics of the last one.  Used only to name the failure
+/// class when the last publication differs from the fresh analysis.
+fn inproc_history(lang: Lang, cfg: &str, seq: &[(String, String)], ws: Option<String>) -> Option<serde_json::Value> {
+    let folders: Vec<lsp_types::Url> = ws.iter().filter_map(|w| lsp_types::Url::parse(w).ok()).collect();
+    let docs: Vec<a2kit::lang::Document> = seq.iter().filter_map(|(u, t)| lsp_types::Url::parse(u).ok().map(|u| a2kit::lang::Document { uri: a2kit::lang::normalize_client_uri(u), version: Some(1), text: t.clone() })).collect();
+    if docs.len() != seq.len() || docs.is_empty() { return None; }
+    guarded(|| {
+        let mut last = None;
+        match lang {
+            Lang::Applesoft => { let mut a = a2kit::lang::applesoft::diagnostics::Analyzer::new(); let _ = a.update_config(cfg);
+                for d in &docs { last = match a.analyze(d) { Ok(()) => serde_json::to_value(a.get_diags(d)).ok().map(canon_diags), Err(_) => None }; } }
+            Lang::Integer => { let mut a = a2kit::lang::integer::diagnostics::Analyzer::new(); let _ = a.update_config(cfg);
+                for d in &docs { last = match a.analyze(d) { Ok(()) => serde_json::to_value(a.get_diags(d)).ok().map(canon_diags), Err(_) => None }; } }
+            Lang::Merlin => { let mut a = a2kit::lang::merlin::diagnostics::Analyzer::new(); let _ = a.update_config(cfg);
+                if !folders.is_empty() { let _ = a.init_workspace(folders.clone(), Vec::new()); }
+                let mut seen: Vec<a2kit::lang::Document> = Vec::new();
+                for d in &docs {
+                    // `didOpen`: gather + all checkpoints + scan; `didChange`: scan of what is buffered
+                    if seen.iter().any(|x| x.uri == d.uri) { for x in seen.iter_mut() { if x.uri == d.uri { *x = d.clone(); } } let _ = a.rescan_workspace(false); }
+                    else { seen.push(d.clone()); let _ = a.rescan_workspace_and_update(seen.clone()); }
+                    last = match a.analyze(d) { Ok(()) => serde_json::to_value(a.get_diags(d)).ok().map(canon_diags), Err(_) => None }; } }
+        }
+        last
+    }).ok().flatten()
+}
+
+/// memo of `inproc_diags` per (text id, settings id) of one case
+struct Fresh<'a> { case: &'a Case, memo: HashMap<(usize, usize), Result<Option<serde_json::Value>, String>> }
+impl<'a> Fresh<'a> {
+    fn new(case: &'a Case) -> Self { Fresh { case, memo: HashMap::new() } }
+    fn get(&mut self, d: usize, t: usize, cfg: usize) -> Result<Option<serde_json::Value>, String> {
+        let case = self.case;
+        self.memo.entry((t, cfg)).or_insert_with(|| inproc_diags(case.lang, &case.cfgs[cfg], &uri_of(case.lang, case.idx, d), &case.texts[t], ws_folder_uri(case.idx))).clone()
+    }
+    /// settings ids under which a new analyzer reproduces `published` from text `t` alone
+    fn candidates(&mut self, d: usize, t: usize, published: &serde_json::Value) -> Vec<usize> {
+        (0..self.case.cfgs.len()).filter(|c| matches!(self.get(d, t, *c), Ok(Some(v)) if v == *published)).collect()
+    }
+}
+
 // ------------------------------------------------------------------------------------------------
 // trace for the Lean model
 // ------------------------------------------------------------------------------------------------
 
 fn is_main(tag: &str) -> bool { tag.starts_with("launch") || tag == "harvest" || tag == "publish" }
 
-/// returns (request line, implementation answer)
-fn build_trace(case: &Case, obs: &Obs) -> (String, String) {
+/// what the client sent, aligned with the log: emits the tokens of messages that launch nothing as
+/// early as possible (they commute with the thread events) and stops at the next message that launches
+/// jobs or is a configuration answer (`W:c` is emitted when one is reached: from there on the main thread
+/// is in, or on its way into, the first half of the configuration handler)
+struct Align<'a> { case: &'a Case, sent: Vec<Act>, si: usize, live: bool, open: Vec<usize>, w_emitted: bool, toks: Vec<String> }
+impl<'a> Align<'a> {
+    fn flush(&mut self) {
+        while self.si < self.sent.len() {
+            match &self.sent[self.si] {
+                Act::Close { d } => { self.toks.push(format!("X:{}", d)); let dd = *d; self.open.retain(|x| *x != dd); }
+                Act::Req { .. } => self.toks.push("R".to_string()),
+                Act::Change { d, ver, t } if !self.live => self.toks.push(format!("C:{}:{}:{}", d, ver, t)),
+                Act::Config { cfg } => { if !self.w_emitted { self.toks.push(format!("W:{}", cfg)); self.w_emitted = true; } return; }
+                _ => return,
+            }
+            self.si += 1;
+        }
+    }
+    /// a configuration answer that relaunches nothing (no document open) has no log line of its own
+    fn silent_config(&mut self) -> bool {
+        if self.si < self.sent.len() && self.open.is_empty() {
+            if let Act::Config { cfg } = self.sent[self.si].clone() {
+                let lv = cfg_is_live(&self.case.cfgs[cfg]);
+                self.toks.push(format!("G:{}:{}:-", cfg, lv as u8));
+                self.live = lv; self.si += 1; self.w_emitted = false;
+                self.flush();
+                return true;
+            }
+        }
+        false
+    }
+}
+
+/// returns (request line, implementation answer); `obs_k` = per publication of a case document (in wire
+/// order) the settings ids under which a new analyzer reproduces it
+fn build_trace(case: &Case, obs: &Obs, obs_k: &[Option<Vec<usize>>]) -> (String, String) {
     let log = &obs.log;
     let uri_idx = |u: &str| -> Option<usize> { (0..4).find(|d| uri_of(case.lang, case.idx, *d) == u) };
     // what the client sent, in order (the initial configuration answer comes first)
     let mut sent: Vec<Act> = Vec::new();
-    if case.answer_initial_cfg { sent.push(Act::Config { live: true }); }
+    if let Some(k) = case.initial_cfg { sent.push(Act::Config { cfg: k }); }
     for (_, a) in &case.steps { sent.push(a.clone()); }
-    let mut toks: Vec<String> = Vec::new();
-    let mut si = 0usize;
-    let mut live = true;
-    let mut open: Vec<usize> = Vec::new();
+    let mut al = Align { case, sent: sent.clone(), si: 0, live: true, open: Vec::new(), w_emitted: false, toks: Vec::new() };
     let mut consumed: HashSet<usize> = HashSet::new();
     let mut acquired: HashSet<usize> = HashSet::new();
     let mut died: HashSet<usize> = HashSet::new();
@@ -723,38 +1063,27 @@ fn build_trace(case: &Case, obs: &Obs) -> (String, String) {
             outcome.insert(l.id, matches!(nxt, Some(x) if x.tag == "publish"));
         }
     }
-    // emit the client messages that launch nothing, up to the next launching one
-    fn flush_silent(sent: &[Act], si: &mut usize, live: &mut bool, open: &mut Vec<usize>, toks: &mut Vec<String>, stop_at_launcher: bool) {
-        while *si < sent.len() {
-            match &sent[*si] {
-                Act::Close { d } => { toks.push(format!("X:{}", d)); open.retain(|x| x != d); }
-                Act::Req { .. } => toks.push("R".to_string()),
-                Act::Config { live: l } if open.is_empty() => { toks.push(format!("G:{}:-", *l as u8)); *live = *l; }
-                Act::Change { d, ver, t } if !*live => toks.push(format!("C:{}:{}:{}", d, ver, t)),
-                _ => { if stop_at_launcher { return; } else { return; } }
-            }
-            *si += 1;
-        }
-    }
+    al.flush();
     for (i, l) in log.iter().enumerate() {
         if consumed.contains(&i) { continue; }
         match l.tag.as_str() {
             "launch" | "launch-private" => {
-                flush_silent(&sent, &mut si, &mut live, &mut open, &mut toks, true);
+                if l.tag == "launch" { while al.silent_config() {} }
                 job_doc.insert(l.id, (l.uri.clone(), l.ver));
-                if si >= sent.len() { toks.push(format!("?unexpected-launch:{}", l.id)); continue; }
-                match sent[si].clone() {
+                if al.si >= al.sent.len() { al.toks.push(format!("?unexpected-launch:{}", l.id)); continue; }
+                match al.sent[al.si].clone() {
                     Act::Open { d, ver, t } | Act::Change { d, ver, t } => {
-                        let is_open = matches!(sent[si], Act::Open { .. });
-                        if l.tag != "launch" || uri_idx(&l.uri) != Some(d) || l.ver != ver { toks.push(format!("?launch-mismatch:{}", l.id)); }
-                        else { toks.push(format!("{}:{}:{}:{}", if is_open { "O" } else { "C" }, d, ver, t)); }
-                        if is_open && !open.contains(&d) { open.push(d); }
+                        let is_open = matches!(al.sent[al.si], Act::Open { .. });
+                        if l.tag != "launch" || uri_idx(&l.uri) != Some(d) || l.ver != ver { al.toks.push(format!("?launch-mismatch:{}", l.id)); }
+                        else { al.toks.push(format!("{}:{}:{}:{}", if is_open { "O" } else { "C" }, d, ver, t)); }
+                        if is_open && !al.open.contains(&d) { al.open.push(d); }
                         job_text.insert(l.id, t);
-                        si += 1;
+                        al.si += 1;
+                        al.flush();
                     }
-                    Act::Config { live: lv } => {
+                    Act::Config { cfg } => {
                         // one private job per open document; their order is the hash-map order
-                        let n = open.len();
+                        let n = al.open.len();
                         let mut order: Vec<usize> = Vec::new();
                         let mut j = i;
                         let mut bad = l.tag != "launch-private";
@@ -765,43 +1094,52 @@ fn build_trace(case: &Case, obs: &Obs) -> (String, String) {
                                 // text of the relaunched checkpoint: last text sent for that document
                                 let d = uri_idx(&log[j].uri).unwrap_or(99);
                                 let mut tt = 99999;
-                                for a in sent.iter().take(si) { match a { Act::Open { d: dd, t, .. } | Act::Change { d: dd, t, .. } if *dd == d => tt = *t, _ => {} } }
+                                for a in sent.iter().take(al.si) { match a { Act::Open { d: dd, t, .. } | Act::Change { d: dd, t, .. } if *dd == d => tt = *t, _ => {} } }
                                 job_text.insert(log[j].id, tt);
                                 consumed.insert(j);
                             } else if log[j].tag == "launch" { bad = true; break; }
                             j += 1;
                         }
-                        if bad || order.len() != n { toks.push(format!("?config-mismatch:{}", l.id)); }
-                        else { toks.push(format!("G:{}:{}", lv as u8, order.iter().map(|d| d.to_string()).collect::<Vec<_>>().join(","))); }
-                        live = lv;
-                        si += 1;
+                        let lv = cfg_is_live(&case.cfgs[cfg]);
+                        if bad || order.len() != n { al.toks.push(format!("?config-mismatch:{}", l.id)); }
+                        else { al.toks.push(format!("G:{}:{}:{}", cfg, lv as u8, order.iter().map(|d| d.to_string()).collect::<Vec<_>>().join(","))); }
+                        al.live = lv;
+                        al.si += 1;
+                        al.w_emitted = false;
+                        al.flush();
                     }
-                    _ => toks.push(format!("?unexpected-launch:{}", l.id)),
+                    _ => al.toks.push(format!("?unexpected-launch:{}", l.id)),
                 }
             }
-            "acquire" => { acquired.insert(l.id); toks.push(format!("A:{}", l.id)); }
+            "acquire" => { acquired.insert(l.id); al.toks.push(format!("A:{}", l.id)); }
             "finish" => {
                 let r = match outcome.get(&l.id) { Some(true) => "1", Some(false) => "0", None => "?" };
                 if r == "0" { if let Some(t) = job_text.get(&l.id) { if !err_texts.contains(t) { err_texts.push(*t); } } }
-                toks.push(format!("F:{}:{}", l.id, r));
+                al.toks.push(format!("F:{}:{}", l.id, r));
             }
-            "die" => { died.insert(l.id); toks.push(format!("D:{}", l.id)); }
-            "exit" => { if !acquired.contains(&l.id) { toks.push(format!("E:{}", l.id)); } }
+            "die" => { died.insert(l.id); al.toks.push(format!("D:{}", l.id)); }
+            "exit" => { if !acquired.contains(&l.id) { al.toks.push(format!("E:{}", l.id)); } }
             "harvest" => {
                 let k = if outcome.get(&l.id) == Some(&true) { "p" } else if died.contains(&l.id) { "e" } else { "n" };
-                toks.push(format!("H:{}:{}", l.id, k));
+                al.toks.push(format!("H:{}:{}", l.id, k));
             }
             "publish" => {
                 // must be the publication of the job harvested just before, with that job's uri/version
                 let prev = log.iter().take(i).rev().find(|x| is_main(&x.tag));
                 let ok = match prev { Some(p) if p.tag == "harvest" => job_doc.get(&p.id) == Some(&(l.uri.clone(), l.ver)), _ => false };
-                if !ok { toks.push("?publish-mismatch".to_string()); }
+                if !ok { al.toks.push("?publish-mismatch".to_string()); }
             }
-            _ => toks.push(format!("?unknown-tag:{}", l.tag)),
+            _ => al.toks.push(format!("?unknown-tag:{}", l.tag)),
         }
     }
-    flush_silent(&sent, &mut si, &mut live, &mut open, &mut toks, true);
-    if si < sent.len() { toks.push("?launch-missing".to_string()); }
+    al.flush();
+    while al.silent_config() {}
+    if al.si < al.sent.len() { al.toks.push("?launch-missing".to_string()); }
+    // observations about the publications
+    for (i, k) in obs_k.iter().enumerate() {
+        if let Some(c) = k { al.toks.push(format!("K:{}:{}", i, if c.is_empty() { "-".to_string() } else { c.iter().map(|x| x.to_string()).collect::<Vec<_>>().join(",") })); }
+    }
+    let toks = al.toks;
     // `F:id:?` (job never harvested) is accepted by nobody: keep the run honest
     let errs = if err_texts.is_empty() { "-".to_string() } else { err_texts.iter().map(|t| t.to_string()).collect::<Vec<_>>().join(",") };
     let req = format!("c18 trace {} {}", errs, toks.join(" "));
@@ -810,9 +1148,7 @@ fn build_trace(case: &Case, obs: &Obs) -> (String, String) {
     for (_, uri, ver, _) in &obs.pubs {
         let d = match uri_idx(uri) { Some(d) => d, None => continue }; // probe document
         let v = ver.unwrap_or(-1);
-        let mut t = 99999;
-        for a in &sent { match a { Act::Open { d: dd, ver: vv, t: tt } | Act::Change { d: dd, ver: vv, t: tt } if *dd == d && *vv == v => t = *tt, _ => {} } }
-        pubs.push(format!("{}:{}:{}", d, v, t));
+        pubs.push(format!("{}:{}:{}", d, v, text_of_version(&sent, d, v)));
     }
     let shared_died = log.iter().any(|l| l.tag == "die" && log.iter().any(|x| x.tag == "launch" && x.id == l.id));
     let launched = log.iter().filter(|l| l.tag.starts_with("launch")).count();
@@ -822,6 +1158,13 @@ fn build_trace(case: &Case, obs: &Obs) -> (String, String) {
     let lock = if shared_died { "poisoned" } else if holding { "held" } else { "free" };
     let ans = format!("ok pub={} lock={} queue={}", if pubs.is_empty() { "-".to_string() } else { pubs.join(",") }, lock, launched - harvested.min(launched));
     (req, ans)
+}
+
+/// text id of the version `v` the client sent for document `d` (99999 = none)
+fn text_of_version(sent: &[Act], d: usize, v: i64) -> usize {
+    let mut t = 99999;
+    for a in sent { match a { Act::Open { d: dd, ver: vv, t: tt } | Act::Change { d: dd, ver: vv, t: tt } if *dd == d && *vv == v => t = *tt, _ => {} } }
+    t
 }
 
 // ------------------------------------------------------------------------------------------------
@@ -918,26 +1261,92 @@ fn judge_case(case: &Case, obs: &Obs) -> Rep {
     let dead_analyzer = injected || foreign_panic;
     // with Merlin's live diagnostics switched off a change is (by design) not analysed until the next
     // configuration answer or save: "last published = last sent" is then left to the trace validation
-    let live_off = case.steps.iter().any(|(_, a)| matches!(a, Act::Config { live: false }));
+    let live_off = case.live_off();
     if live_off { out.count("shape:merlin-live-diagnostics-off"); }
+    out.count(&format!("settings:final={}", if obs.final_cfg == 0 { "defaults" } else { "non-default" }));
+    // reference: a NEW analyzer with the given settings on the text alone (library call)
+    let mut fresh = Fresh::new(case);
+    let mut sent: Vec<Act> = Vec::new();
+    for (_, a) in &case.steps { sent.push(a.clone()); }
+    let uri_idx = |u: &str| -> Option<usize> { (0..4).find(|d| uri_of(case.lang, case.idx, *d) == u) };
+    // per publication of a case document: the settings under which a new analyzer reproduces it
+    let mut obs_k: Vec<Option<Vec<usize>>> = Vec::new();
+    for (_, uri, ver, diags) in &obs.pubs {
+        let d = match uri_idx(uri) { Some(d) => d, None => continue };
+        let t = text_of_version(&sent, d, ver.unwrap_or(-1));
+        // (documents in an on-disk workspace: the server's scan data is not part of the model; their
+        //  publications are judged by the final oracle only)
+        let k = match t { 99999 => None, _ if ws_dir(case.idx).is_some() => None, t => Some(fresh.candidates(d, t, &canon_str(diags))) };
+        if let Some(c) = &k {
+            if c.is_empty() { out.count("publication:matches-no-settings"); }
+            else if c.len() < case.cfgs.len() { out.count("publication:settings-distinguishable"); }
+        }
+        obs_k.push(k);
+    }
     if !dead_analyzer {
         // still publishes for a new edit
         out.oracle_t(obs.probe_published, "publishes-after-history", &format!("c18/{}/no-diagnostics-after-history", srv), &desc);
-        // (ii) last publication = last version sent = fresh analysis of the final text
-        for (d, (ver, _t, fresh)) in obs.fresh.iter().filter(|_| !live_off) {
+        // (ii) last publication = last version sent = analysis of the final text alone by a new analyzer
+        //      with the settings the client sent last (library call, and a fresh server given those settings)
+        // documents open at the end: the configuration handler re-analyses exactly these, so only for them is the
+        // last publication bound to the LAST settings; a closed document keeps the publication of its last job,
+        // which must still be the fresh analysis of its text under SOME settings the client sent
+        let mut open_at_end: HashSet<usize> = HashSet::new();
+        for a in &sent { match a { Act::Open { d, .. } => { open_at_end.insert(*d); } Act::Close { d } => { open_at_end.remove(d); } _ => {} } }
+        for (d, (ver, t, fresh_srv)) in obs.fresh.iter().filter(|_| !live_off) {
             let u = uri_of(case.lang, case.idx, *d);
+            let is_open = open_at_end.contains(d);
             let lastp = obs.pubs.iter().filter(|p| p.1 == u).last();
             match lastp {
                 Some(p) if p.2 == Some(*ver) => {
                     out.oracle(true, "last-is-latest", "-", &format!("idx={}", case.idx));
-                    match fresh.clone() {
-                        Some(f) => {
-                            let same = f == p.3;
-                            if !same { out.count("fresh:differs"); }
-                            out.oracle(same, "equals-fresh-analysis", &format!("c18/{}/diagnostics-differ-from-fresh-analysis", srv),
-                                &format!("{} doc={} got={} fresh={}", desc, d, p.3.chars().take(300).collect::<String>(), f.chars().take(300).collect::<String>()));
+                    let got = canon_str(&p.3);
+                    // failure class named by the library comparison; the fresh-server comparison reports the
+                    // same class, so that one defect is one signature
+                    let mut lib_sig: Option<String> = None;
+                    match fresh.get(*d, *t, obs.final_cfg) {
+                        Ok(Some(_)) if !is_open => {
+                            let other = fresh.candidates(*d, *t, &got);
+                            out.count("closed-document:checked-against-all-settings");
+                            out.oracle(!other.is_empty(), "equals-fresh-analysis", &format!("c18/{}/diagnostics-depend-on-history", srv),
+                                &format!("{} doc={} (closed) published-matches-settings={:?} got={}", desc, d, other, p.3.chars().take(400).collect::<String>()));
                         }
-                        None => out.oracle_t(false, "equals-fresh-analysis", &format!("c18/{}/fresh-server-publishes-nothing", srv), &format!("{} doc={}", desc, d)),
+                        Ok(Some(want)) => {
+                            let same = want == got;
+                            if !same { out.count("fresh:differs"); }
+                            // does the settings object matter for this text at all?
+                            if obs.final_cfg != 0 { if let Ok(Some(dflt)) = fresh.get(*d, *t, 0) { out.count(if dflt != want { "settings:final-changes-final-diagnostics" } else { "settings:final-irrelevant-for-final-text" }); } }
+                            let other = fresh.candidates(*d, *t, &got);
+                            let contended = case.burst || case.sched.iter().any(|(k, _, _)| k == "hold" || k == "lock");
+                            // name the failure class: does one analyzer with the RIGHT settings, fed the texts in the
+                            // order they were sent, reproduce what was published?  Then the settings were applied
+                            // and an earlier analysis leaked into this one.
+                            let sig = if same { "-".to_string() } else {
+                                let mut seq: Vec<(String, String)> = Vec::new();
+                                for a in &sent { match a { Act::Open { d: dd, t: tt, .. } | Act::Change { d: dd, t: tt, .. } => { seq.push((uri_of(case.lang, case.idx, *dd), case.texts[*tt].clone())); if *dd == *d && *tt == *t { break; } } _ => {} } }
+                                let hist = inproc_history(case.lang, &case.cfgs[obs.final_cfg], &seq, ws_folder_uri(case.idx));
+                                if ws_dir(case.idx).is_some() && hist.as_ref() == Some(&got) { format!("c18/{}/workspace-scan-lags-one-version", srv) }
+                                else if hist.as_ref() == Some(&got) || other.is_empty() { format!("c18/{}/diagnostics-depend-on-history", srv) }
+                                else { format!("c18/{}/{}", srv, if contended { "config-lost-under-contention" } else { "last-settings-not-applied" }) }
+                            };
+                            if !same { lib_sig = Some(sig.clone()); }
+                            out.oracle(same, "equals-fresh-analysis", &sig,
+                                &format!("{} doc={} final-settings={} published-matches-settings={:?} got={} fresh={}", desc, d, obs.final_cfg, other,
+                                    p.3.chars().take(400).collect::<String>(), want.to_string().chars().take(400).collect::<String>()));
+                        }
+                        Ok(None) => out.count("fresh:library-analysis-returned-err-but-server-published"),
+                        Err(e) => out.oracle(false, "equals-fresh-analysis", &format!("panic:{}", panic_site(&e).split(':').next().unwrap_or("?")), &format!("{} doc={} panic={}", desc, d, e.chars().take(200).collect::<String>())),
+                    }
+                    match fresh_srv.clone() {
+                        _ if !is_open => {}
+                        Some(f) => {
+                            let same = canon_str(&f) == canon_str(&p.3);
+                            if !same { out.count("fresh-server:differs"); }
+                            // (if only the fresh server disagrees, the two references disagree with each other)
+                            out.oracle(same, "equals-fresh-server", &lib_sig.clone().unwrap_or(format!("c18/{}/fresh-server-differs-from-library", srv)),
+                                &format!("{} doc={} final-settings={} got={} fresh={}", desc, d, obs.final_cfg, p.3.chars().take(300).collect::<String>(), f.chars().take(300).collect::<String>()));
+                        }
+                        None => out.oracle_t(false, "equals-fresh-server", &format!("c18/{}/fresh-server-publishes-nothing", srv), &format!("{} doc={}", desc, d)),
                     }
                 }
                 Some(p) => out.oracle_t(false, "last-is-latest", &format!("c18/{}/stale-diagnostics-after-burst", srv),
@@ -952,13 +1361,17 @@ fn judge_case(case: &Case, obs: &Obs) -> Rep {
     }
     // model vs implementation
     if obs.hooks {
-        let (req, ans) = build_trace(case, obs);
+        let (req, ans) = build_trace(case, obs, &obs_k);
         // a trace cut short by a wait that ran out (job never harvested, launch never seen) is not evidence
         let incomplete = req.contains(":?") || req.contains("?launch-missing");
-        if incomplete {
+        if obs.garbled {
+            out.count("trace:garbled-by-panic-output");
+            out.oracle_t(false, "trace-complete", &format!("c18/{}/trace-garbled", srv), &format!("{} trace={}", desc, req.chars().take(400).collect::<String>()));
+        } else if incomplete {
             out.oracle_t(false, "trace-complete", &format!("c18/{}/trace-incomplete", srv), &format!("{} trace={}", desc, req.chars().take(400).collect::<String>()));
         } else {
             out.oracle(true, "trace-complete", "-", &format!("idx={}", case.idx));
+            if req.contains(" W:") { out.count("trace:with-settings-answer"); }
             out.q(&req, &ans);
         }
     }
@@ -1031,6 +1444,7 @@ fn run_odd_chunk(bin_dir: &str, lang: Lang, docs: &[(usize, String, &'static str
 // entry
 // ------------------------------------------------------------------------------------------------
 
+
 pub fn run(ctx: &mut Ctx) {
     let bin_dir = match build_servers() {
         Ok(d) => d,
@@ -1051,7 +1465,8 @@ pub fn run(ctx: &mut Ctx) {
             cases.push(gen_case(lang, idx, &mut r));
         }
         let mut r = rng.fork(9000 + lang.idx() as u64);
-        cases.extend(fixed_cases(lang, 9000 + lang.idx() * 10, &mut r));
+        cases.extend(fixed_cases(lang, 9000 + lang.idx() * 20, &mut r));
+        if lang == Lang::Merlin { cases.extend(workspace_cases(9100)); }
     }
     let cases: Vec<Case> = cases.into_iter().filter(|c| ctx.out.wants(c.idx)).collect();
     // run them on a small pool (server processes mostly sleep); a case whose only failures are of the
